@@ -63,6 +63,10 @@ CHECKS = {
    text="(splitter) generated block sizes, blob-index sizes and sequences of batches of entry lengths (boundary values, runs of 169/170/171/340/341 small entries) drive Buffer + Splitter::split with a persistent SplitCtx; invariants on every blob part and on a virtual device replayed from the parts and walked by an independent format reader (scan == written, disjoint regions, payload at recorded position). (end to end) hybsim histories whose batch boundaries are chosen by holding io, with sizes that fill the current block exactly / by one page more, runs that fill blob indexes, deletes, reuse after reclaim and graceful reopen; at every quiescent point: independent parse of every block (geometry, index == header, checksum), every key the disk tier claims loads and equals the entry the scan reconstructs as newest for its hash, and after a graceful reopen recovery == scan and nothing loadable is lost.",
    note="Identity hasher; compression off in the end-to-end part. Staleness relative to the insert history is C01's claim and not asserted here. A runaway loop / allocation inside the splitter ends the run as inconclusive (exit 2) through run.sh's supervision.",
    technique="property-based testing with an independent format reader as oracle (proptest random): direct splitter harness + end-to-end on the simulated device"),
+ "C08": dict(engine="fmt", category="exploration", design="§5 C08",
+   text="(code) every built-in Code type (14 numeric types at MIN/MAX/0/1/random, floats by bit pattern incl. NaN payloads, bool, String, Vec<u8>, Bytes with lengths concentrated at page boundaries): decode(encode(x)) == x bitwise, no trailing bytes, every too-small destination => size-limit error. (ser) EntrySerializer/EntryDeserializer + Buffer::push headers for five key/value type pairs under none/zstd/lz4: KvInfo lengths == bytes written (independent counting writer), round trip, every cut-off of the destination is a size-limit error and never Ok, header fields == actual lengths, independent format reader agrees. (mut) valid entries / blob indexes damaged by byte edits and truncation are accepted only if the checksummed bytes are intact and decode to the originals. (tier) on hybsim, values at the per-entry limit -5000..+600 bytes under each codec: accepted => loads bit-exactly and found intact on the device by the independent reader, rejected => absent as a whole. (serde) the code + ser parts again in a second binary built with the `serde` feature (blanket bincode impl). Thorough additionally runs coverage-guided libFuzzer targets over the same oracles.",
+   note="Storable types are the built-in Code impls plus (serde build) the same types through bincode; user-defined Code impls are outside the statement. The cut-off oracle covers the `&mut [u8]` destination the flusher uses.",
+   technique="property-based testing (proptest random with boundary-biased generators): round-trip, cut-off enumeration, byte-mutation with an independent format reader; thorough adds coverage-guided fuzzing (cargo-fuzz/libFuzzer) of the same in-target oracles"),
  "C09": dict(engine="hybsim", category="exploration", design="§5 C09",
    text="Sustained workloads of several device capacities (mixed sizes, overwrites, deletes, bursts) on devices of 4-12 blocks x 16-64 KiB, flushers 1-3, reclaimers 1-2, thresholds inside the engine's no-warning domain, reinsertion filter none/some keys, flush buffer 1-2 blocks per flusher (and an oversized class); io held and completed in a generated order that includes reclaim reads and clean writes. Log invariants from the simulated device's logical clock: no overlapping in-flight writes, data ranges of a block epoch disjoint, index rewrites never touch entry data, no clean while a write to the block is in flight and vice versa. At quiescent points every key is intact (current version) or absent; wait() at generated points resolves under every generated completion order (quiescence = stall); reinsertion-filter keys whose latest version was flushed still hit after their block's reclaim.",
    note="The 'oldest-filled first' sub-claim is NOT decided: an executable notion of 'filled' that is robust to multi-block batches under held io could not be stated without alarms on the unchanged tree (see DESIGN.md §C09). One known finding (stale entry when a batch spans >= 3 blocks, i.e. flush buffer > 2 blocks) is tolerated by structural signature. Single OS thread.",
@@ -99,7 +103,7 @@ def main():
             na.append({"property_id": pid, "reason": NOT_YET.get(pid, "check not built yet in this round (planned, see DESIGN.md §5); not claimed until its check exists and is silent on the unchanged tree")})
     manifest = {
         "version": 1,
-        "setup_cmd": "cd /verif/harness && CARGO_NET_OFFLINE=true cargo build --release --offline",
+        "setup_cmd": "cd /verif/harness && CARGO_NET_OFFLINE=true cargo build --release --offline && cd /verif/harness-serde && CARGO_NET_OFFLINE=true cargo build --release --offline",
         "hooks": {
             "guard": "verif",
             "enable": "cargo feature `verif` on foyer / foyer-memory / foyer-storage, enabled by the path dependencies in /verif/harness/core/Cargo.toml",
@@ -112,6 +116,8 @@ def main():
              "kind_free_text": "single-threaded interpreter for foyer::Cache histories + event-driven reference model (memoracle.rs) + eviction reference models (evmodel.rs)"},
             {"name": "hybsim", "path": "/verif/harness/core/src/hybsim.rs", "serves_properties": ["C01", "C03", "C04", "C07", "C09", "C10", "C12", "C15", "C17"],
              "kind_free_text": "deterministic interpreter for HybridCache histories on a simulated device/io engine (simdev.rs) with harness-owned io completion order; oracles in hyboracle.rs; independent format reader fmtparse.rs"},
+            {"name": "fmt", "path": "/verif/harness/core/src/c08check.rs", "serves_properties": ["C08"],
+             "kind_free_text": "direct harness around Code / EntrySerializer / EntryDeserializer / Buffer / BlobIndexReader (c08shared.rs is compiled twice: without and with foyer's serde feature, the latter in /verif/harness-serde) + cargo-fuzz targets in /verif/fuzz"},
             {"name": "fetchsim", "path": "/verif/harness/core/src/fetchsim.rs", "serves_properties": ["C06", "C11", "C17"],
              "kind_free_text": "manual executor for get_or_fetch histories: harness futures for disk lookup / origin fetch, harness-driven runtime, protocol state machine as oracle"},
         ],
